@@ -292,7 +292,15 @@ impl<'a, 'b> Gen<'a, 'b> {
             Op::Skip => Topo::Skip(self.d.below(7) as u8, Box::new(self.tree(depth, false))),
             Op::Merge => Topo::Merge(self.members(depth, 1, 4, at_root)),
             Op::Concat => Topo::Concat(self.members(depth, 1, 4, false)),
-            Op::Combine => Topo::Combine(self.members(depth, 1, 3, false)),
+            Op::Combine => {
+                // arities 1..=3, and occasionally the widest instance of the macro (12) where the tuple
+                // reaches the probe unpacked
+                if self.puppets_only && depth == 0 && self.d.u8() >= 244 {
+                    Topo::Combine((0..12).map(|_| self.tree(0, false)).collect())
+                } else {
+                    Topo::Combine(self.members(depth, 1, 3, false))
+                }
+            }
             Op::Flatten => {
                 let Topo::Puppet(outer) = self.puppet(false) else { unreachable!() };
                 let inners = self.members(depth, 0, 4, false);
